@@ -1,5 +1,6 @@
 """Molecule construction helpers (through chython's public constructor path)."""
 from chython import MoleculeContainer
+from chython.periodictable import Element
 
 
 def build(atoms, bonds, skip=False):
@@ -10,10 +11,11 @@ def build(atoms, bonds, skip=False):
     for t in atoms:
         n, sym = t[0], t[1]
         kw = t[2] if len(t) > 2 else {}
+        atom = Element.from_symbol(sym)(**kw) if kw else sym
         if skip:
-            m.add_atom(sym, n, _skip_calculation=True, **kw)
+            m.add_atom(atom, n, _skip_calculation=True)
         else:
-            m.add_atom(sym, n, **kw)
+            m.add_atom(atom, n)
     for a, b, o in bonds:
         if skip:
             m.add_bond(a, b, o, _skip_calculation=True)
